@@ -234,6 +234,7 @@ B("C10", "anon-member-reference-looked-up-once", F_FLATB, "            while isi
 B("C09", "prefixed-left-to-default-encoder", "hdl21/params.py", "    if isinstance(obj, Prefixed):\n", "    if False and isinstance(obj, Prefixed):\n", "C09.7")
 B("C09", "decimal-through-float", "hdl21/params.py", "        return \"Decimal:\" + str(obj.normalize())", "        return \"Decimal:\" + str(float(obj))", "C09.7")
 B("C15", "literal-size-last-term-scaled", "pdks/Sky130/sky130_hdl21/pdk_logic.py", "return h.Literal(f\"(({orig.text}) * 1e6)\")", "return h.Literal(f\"({orig.text} * 1e6)\")", "C15.3")
+B("C04", "displaced-instance-reconnected", F_FLATB, "        if inst._parent_module is None:\n", "        if False and inst._parent_module is None:\n", "C04.6")
 B("C01", "handed-on-slice-not-entered", F_RRT, "            if hasattr(resolved, \"_slices\"):\n                resolved._slices.add(slice_)\n", "", "C01.14")
 
 # ------------------------------------------------------------------ C19
